@@ -44,9 +44,13 @@ var props = map[string]propCfg{
 			"every scanner / tokenizer loop of wrapper.go terminates (variant) and makes progress on every byte string; token extents stay inside the buffer",
 			"output discipline of transpileOne: a normal return for X.fo means gen_X.go holds the complete emitted text; any abnormal termination (panic, or the deferred OnParseError diagnostic + exit 1) leaves the file system untouched; a .foi argument writes nothing",
 			"closed-world scan: no function of fc or pkg/* other than transpileOne (through sys.WriteFile) writes, creates, renames or removes files",
+			"token stream: psNext (tkzNext executed in place, nextToken through its contract) keeps the liveness invariant (current token inside the buffer, every token but EOF at least one byte long) and strictly advances unless at EOF; psSkipEOL / psNextNOL / tkzNextNOL terminate (variant: bytes left) and return a state that is not at an end-of-line token",
+			"the type parser terminates on every token stream: parseType / parseTypeArrows / parseElemType / parseTermType / parseAtomType / parseTypeList / mightParseSpecifiedTypeList / parseFullName / parseFieldDefs carry the variant 8*bytes-left + rank, checked at every call inside the group including the calls through the function-typed parameter, and the ParseList2 loop of parseElemType has the loop variant bytes-left (each element parser strictly advances)",
+			"forward-declaration retry transTRecurse terminates (variant 1001 - count)",
+			"the generic list loops ParseList / ParseList2 terminate (variant: bytes left) whenever the element parser strictly advances on every live state that is not at end of input, the separator step does not go back and end of input ends the list; an EOF token exists only at the end of the buffer (scanTokenAt, nextToken)",
 		},
 		Scans:      []func(*run){scanFsWrites},
-		NotDecided: []string{"termination of the recursive-descent parser and of type inference (two known non-terminating inputs, DESIGN §6)"},
+		NotDecided: []string{"termination of the rest of the recursive-descent parser (expressions, statements, definitions) and of type inference (two known non-terminating inputs, DESIGN §6: `let f x = x x`, `type A = {X: []A}`)", "a type factory stored in the scope (a function value) is assumed to return or panic"},
 	},
 	"C15": {
 		Modules: []string{"fc"},
@@ -87,8 +91,11 @@ var props = map[string]propCfg{
 		Decided: []string{
 			"exaustiveCheck(ttype, arms): when ttype is a union, it panics (the diagnostic path) if and only if the union's info is missing or some case of the union is named by no arm - for unions of any size, any arm order, duplicate arms, arms naming unknown cases",
 			"routing (parseURules): a match returned without a default arm has been through exaustiveCheck with exactly its arms (so it covers every case); a default arm is accepted only when the next arm is inside the enclosing offside and is `| _`",
+			"arms (parseUnionMatchRules, ParseList2 executed in place): the arm list goes on exactly while the next token after line breaks is a `|` inside the enclosing offside line that does not start the default arm - tested on the state reached; at least one arm; the offside stack is kept",
+			"an arm that binds its payload is accepted only if the type of the matched expression is a union (parseUnionMatchRule: failing cast = diagnostic)",
+			"case lists: instantiating a union (GenUnionType, tryUniFacToUniType) registers every case of the definition, names in declaration order, for exactly the type it returns; the table key of a union / record type (uniToKey, rtToKey, encodedKey) is its name and all its type arguments in order",
 		},
-		NotDecided: []string{"that a match whose target is not yet known to be a union never reaches exaustiveCheck (read, not proved); parseUnionMatchRules (which arms belong to the match) is abstract", "the emitted 'never reached' panic being unreachable in accepted programs (a C01-level consequence)"},
+		NotDecided: []string{"that a match without binding arms whose target is not yet known to be a union is checked later (exaustiveCheck does nothing for a non-union type; read, not proved)", "the registered payload types (substitution of type parameters, tpreplace) and the link between the abstract table view has_uniinfo / uniinfo and the dictionary behind lookupUniInfo / updateUniInfo (assumed)", "the emitted 'never reached' panic being unreachable in accepted programs (a C01-level consequence)"},
 	},
 	"C08": {
 		Modules: []string{"fc"},
@@ -97,8 +104,9 @@ var props = map[string]propCfg{
 			"every node the binary-operator factory builds has the accumulated expression as its left and the new operand as its right operand (newBinOpCall, newBinOpNormal, newEqNeq, newPipeCall*), and newBinOpCall is called only from parseBinAfter with (cur, rhs)",
 			"a binary node is always emitted parenthesised with its operands in order (binOpToGo), so the grouping of the tree is the parenthesisation of the output",
 			"precedence climbing for chains of ANY length (parseBinAfter / parseExprWithPrec / parseExpr, ghost ranks + ghost flag wg): every node is built with rank(left) >= rank(op) and rank(right) > rank(op) - the published table with left association -, each call returns an expression of rank >= its minimum and stops before an operator of rank >= its minimum; recursion and the function-typed parameter are discharged modularly (the function's own contract is the induction hypothesis)",
+			"operands (parseAtom): a literal token is its literal node, () is unit, parentheses only group - the expression parsed inside is returned unchanged and the closing parenthesis is required -; a term ends (isEndOfTerm) exactly at EOF, a line end, ; } ) ] with then else , or where a binary operator follows, also at the beginning of the next line; an application list has at least one atom (parseAtomList)",
 		},
-		NotDecided: []string{"that operands appear in source order without loss (needs a token-list ghost); application binds tighter / prefix not applies to the following application (parseTerm, parseAtomList are abstract operands of rank 100 here)"},
+		NotDecided: []string{"that operands appear in source order without loss (needs a token-list ghost); prefix not applies to the following application and an application's head and arguments (parseTerm is an abstract operand of rank 100 here; scan: its not-operand is a term)"},
 		Scans:      []func(*run){scanBinOpTable, scanBinOpCallSites, scanNotOperand},
 	},
 	"C05": {
@@ -120,8 +128,10 @@ var props = map[string]propCfg{
 			"L2 (part): a SPACE token covers blanks and comments only as far as its extent/progress contract says; nextToken returns the first non-SPACE token at or after the end of the previous one",
 			"L3 offside primitives decide by comparing columns only: insideOffside = col >= top, isEndOfBlock <= col < top, psPushOffside panics iff top >= col and pushes exactly col, psPopOffside pops exactly one - so any strictly monotone re-indentation leaves every decision unchanged",
 			"L4 closed set: Tokenizer.col is read only by psCurCol and tkzNext, offsideCol only by the offside primitives and the parse-state constructors (scan)",
+			"L5 line breaks where the grammar allows them: psSkipEOL is verified (returns a state that is not at an end-of-line token, identity when there is none) and the parsers of a let's right-hand side (parseLetOneVarDef, parseLetDestVarDef), of a function let's body (parseLetFuncDef), of a match arm's body (parseUnionMatchRule, parseStringMatchRule, parseStringVarRule, parseDefaultMatchRule) and of the blocks of a multi-line if (parseIfAfterIfExpr) are started exactly once per construct at a token that is not an end-of-line - so same line or next line cannot differ for them; an operator on the next line continues the expression (C08's stop / nextfits over skipeol)",
+			"L6 match arms: the arm list of a union match ends exactly at the first `|` left of the enclosing offside line (parseUnionMatchRules)",
 		},
-		NotDecided: []string{"the grammar-level clauses (if on one line or several, right-hand side on the same or the next line, a pipeline broken before |>, blank lines and comments between statements): they are placements of psSkipEOL in thirty parser functions and need a relational proof of the whole parser; NOT decided"},
+		NotDecided: []string{"the remaining grammar-level placements (record / union definitions over several lines, fun, field initialisers, string-match arm lists, blank lines and comments between root statements) and the statement that re-indenting a whole block leaves the parse unchanged (a relational property of the whole parser; L3 gives it for each single decision)"},
 		Scans:      []func(*run){glueLemmas("linestart"), scanColumnReaders},
 	},
 	"C11": {
@@ -145,9 +155,11 @@ var props = map[string]propCfg{
 			"record: struct with the same field names and mapped field types in order (rdfToGo, rdffieldToGo); tuples frt.NewTupleN(...) (tupleToGo)",
 			"top-level let: package func with name, type parameters, parameters in order and result type (rfdToGo, lfdParamsToGo, paramsToGo) or package var (rootVarDefToGo)",
 			"calls: the declared name with explicit type arguments if given (varRefToGo), all arguments in source order, a lone unit argument dropped (fcFullApplyGo, fcUnitArgOnly); external types registered under their qualified name (piRegEType)",
+			"record literal Name[targs]{f1: e1, f2: e2} with the fields in the order of the literal (rgToGo, rgFVToGo, frStructName); a whole union definition = interface, marker methods, Stringer methods, then per case the struct and its constructor, every part a function of the definition alone, cases in declaration order (udfToGo, udCSConformMethods, udCSStringerMethods, caseToGo, dsToGo = record_text / union_text)",
+			"parser half of record definitions: the field list is exactly the fields written, in order, with or without a trailing `;` (parseFieldDef, parseFieldDefs against the grammar relations Rfield / Rfields); a reference built by GenFuncVar keeps the explicit type arguments it was given",
 			"partial application (fcPartialApplyGo): a closure whose parameters are _r0.._rk typed by the missing parameter types, calling the callee (explicit type arguments kept) with the supplied arguments first, in source order, then _r0.._rk",
 		},
-		NotDecided: []string{"that the emitted text compiles together with hand-written client Go (needs the Go type checker)", "csRegisterCtor (references resolve to the var or func by the same rule) registers closures in dictionaries: not under contract", "a match on a generic union emits case U_C without type arguments (observation, a C01-level defect)"},
+		NotDecided: []string{"that the emitted text compiles together with hand-written client Go (needs the Go type checker)", "csRegisterCtor and the registration of the types of a running `type ... and ...` group (psRegRecDefToTDCtx, psRegUdToTDCtx) store closures in scope dictionaries: not under contract", "a match on a generic union emits case U_C without type arguments (observation, a C01-level defect)"},
 		Scans:      []func(*run){glueLemmas("join")},
 	},
 }
